@@ -34,6 +34,8 @@ FLOORS = {
               'first:probe': 100, 'h2_events': 5000, 'real_book_cases': 30, 'real_faults_raised': 30},
     'thorough': {'cases': 12000, 'second_failures': 3000, 'pos:cse': 200, 'pos:cycle': 500},
 }
+for _tier in FLOORS:
+    FLOORS[_tier]['suite:tests'] = 2000          # the repository's own suite ran under the monitors
 ASSUMPTIONS = ['unrelated = not a ground-truth dependant of a failing cell (ranges count with all their cells)',
                'after a one-shot fault (plugin raises on its first call only) a retry may succeed; it must then '
                'return the fresh value']
@@ -690,6 +692,10 @@ def _unbounded_one(ctx, mode, kind, single):
 
 
 def run(ctx):
+    if ctx.shard == ctx.nshards - 1:
+        # the repository's own test-suite as one more workload under the monitors (vp.suitemon)
+        from vp import suiteload
+        suiteload.run_suite(ctx)
     rng = ctx.rng
     kinds = ['nosuch', 'failk-always', 'failk-once', 'nosuch-keyword', 'failname', 'nosuch-constant', 'nosuch-braces']
     if ctx.shard == 0:
@@ -720,6 +726,10 @@ def run(ctx):
 
 
 def replay(ctx, case):
+    if case.get('kind') == 'suite':
+        from vp import suiteload
+        suiteload.run_suite(ctx)
+        return
     if case.get('kind') == 'recursion':
         recursion_case(ctx)
         return
